@@ -14,6 +14,7 @@ package sched
 
 import (
 	"fmt"
+	"os"
 	"reflect"
 	"runtime"
 	"sort"
@@ -23,6 +24,7 @@ import (
 	"sync/atomic"
 	"testing"
 	"testing/synctest"
+	"time"
 
 	"github.com/open2b/scriggo"
 )
@@ -514,6 +516,7 @@ func (x *Exec) choose(width int) (int, bool) {
 
 // runOne executes the scenario once following prefix, then default choices.
 func runOne(t *testing.T, sc *Scenario, prefix []int) (x *Exec, obs string) {
+	heartbeat()
 	installHook()
 	if sc.Prepare != nil {
 		sc.Prepare()
@@ -712,6 +715,24 @@ func traceOf(x *Exec) []string {
 }
 
 // Explore runs the exhaustive deviation-bounded DFS of one scenario.
+var (
+	hbLast  time.Time
+	hbCount int
+)
+
+// heartbeat tells the parent process (RunCheck) that another execution is
+// starting: an execution that never comes back (code under test spinning or
+// blocked outside every scheduling point) is detected by the parent's watchdog.
+func heartbeat() {
+	hbCount++
+	path := os.Getenv("VERIF_HB")
+	if path == "" || time.Since(hbLast) < time.Second {
+		return
+	}
+	hbLast = time.Now()
+	os.WriteFile(path, []byte(fmt.Sprint(hbCount)), 0o644)
+}
+
 func Explore(t *testing.T, sc *Scenario, maxExec int) Stats {
 	st := Stats{Scenario: sc.Name}
 	outcomes := map[string]bool{}
